@@ -32,15 +32,19 @@ EXPLANATION = (
     "sign, multiplier, bit-field positions, fixed values, spares, length/presence "
     "callbacks, sequence items. R1 compares them with spec/trxd.json for the 8 "
     "envelopes; R2 tabulates MTS.get_burst_len over all 16 codes of the 4-bit mod "
-    "field against the modulation table and data_msg.Modulation with its TSC-set "
-    "variants, and folds BurstBits' presence over nope in {0,1}; R3 folds the v0 Rx "
-    "length callback over every remaining length the message codec can produce; R4 "
-    "compares with the writer layout extracted from data_msg.gen_msg/append_hdr_to/"
-    "gen_mts; R5 checks the batching structure.")
+    "field (folded with MTS's class-body scope, or evaluated concretely - decision chain, lookup table, arithmetic alike) against the modulation table and "
+    "data_msg.Modulation with its TSC-set variants, and folds BurstBits' presence over nope in {0,1}; R3 folds the v0 Rx "
+    "length callback over every remaining length the message codec can produce; R4 is decided by evaluation: witness messages "
+    "(boundary header values, every modulation with every TSC set, GMSK/EDGE bursts, NOPE, legacy flag) are turned into datagrams "
+    "by TxMsg/RxMsg.gen_msg() under the concrete evaluator (rules.c16.Mach) and decoded by the evaluated PDU class - the values must be the "
+    "message's fields; the writer layout extracted from the statements of gen_msg/append_hdr_to/gen_mts is an additional proof attempt that "
+    "is never a verdict by itself; R5 checks the batching structure; R6 evaluates every PDU class value-level (0..8 batched sub-PDUs with "
+    "differing BATCH flags) against the block semantics applied to its own layout.")
 ASSUMPTIONS = [
-    "the codec building blocks behave as modelled (C16 decides those laws on codec.py)",
+    "the codec building blocks behave as modelled (C16 decides those laws on codec.py); R4/R6 evaluate codec.py itself",
     "spec/trxd.json transcribes the TRXD layouts; field names of the definitions are compared modulo the alias cir -> ci",
-    "value-level round trip of each definition is not decided (C16's laws + R1..R5 are its premises)",
+    "value-level round trip is decided on generated witnesses (R6), not for all field values",
+    "R4: the domain of messages is what the message codec's own validate() accepts",
 ]
 
 FP = rel("trxd_proto")
@@ -153,6 +157,7 @@ class World:
             env[init.args.kwarg.arg] = kwx
         elif kwx:
             raise AnalysisError("%s.__init__: unexpected keyword %s" % (c.name, sorted(kwx)))
+        env["$init_cls"], env["$init_self"] = c, obj
         sub = PEv(self.repo, c.mod, env, W=self)
         try:
             sub.run_block(init.body)
@@ -267,19 +272,29 @@ class World:
             return self.construct(fci, [obj] + list(args), kw)
         raise AnalysisError("method %s.%s has no model" % (obj.ci.name, name))
 
+    def describe(self, obj):
+        return describe_folded(self, obj)
+
     def apply(self, lam, args):
+        if isinstance(lam, MLam):
+            return lam.call(args)
         ps = [a.arg for a in lam.node.args.args]
         if len(ps) != len(args):
             raise AnalysisError("callback arity: %s" % canon(lam.node)[:60])
-        env = {k: v for k, v in lam.env.items() if not isinstance(v, (Obj, Lam))}
+        env = {k: v for k, v in lam.env.items() if not isinstance(v, (Obj, Lam)) and not str(k).startswith("$")}
         env.update(zip(ps, args))
-        return Ev(self.repo, lam.mod, env).ev(lam.node.body)
+        return PEv(self.repo, lam.mod, env, W=self).ev(lam.node.body)
 
 
 class PEv(Ev):
     def __init__(self, repo, mod, env=None, self_cls=None, depth=0, W=None):
         Ev.__init__(self, repo, mod, env, self_cls, depth)
         self.W = W
+
+    def _mk(self, *a, **kw):
+        e = Ev._mk(self, *a, **kw)
+        e.W = self.W           # sub-evaluators (helper calls, comprehensions) keep the class-body scope / model
+        return e
 
     def ev_Name(self, n):
         if n.id in self.env:
@@ -323,6 +338,30 @@ class PEv(Ev):
 
     def ev_Call(self, n):
         f = n.func
+        if isinstance(f, ast.Attribute) and f.attr == "__init__" and isinstance(f.value, ast.Call) and \
+                isinstance(f.value.func, ast.Name) and f.value.func.id == "super" and not f.value.keywords:
+            # super().__init__(...) / super(C, self).__init__(...): the next class in the MRO of the object under construction
+            cur, obj = self.env.get("$init_cls"), self.env.get("$init_self")
+            if len(f.value.args) == 2:
+                c0, obj = self.ev(f.value.args[0]), self.ev(f.value.args[1])
+                cur = c0.ci if isinstance(c0, ClassRef) else None
+            if cur is None or not isinstance(obj, Obj):
+                raise Unknown("super() outside a constructor under interpretation")
+            mro = self.repo.mro(obj.ci)
+            if cur not in mro:
+                raise Unknown("super(): class not in the MRO")
+            nxt = mro[mro.index(cur) + 1:]
+            args, kw = self.evargs(n)
+            for c in nxt:
+                if "__init__" in c.methods:
+                    if self.W.is_codec(c):
+                        self.W.model_init(obj, self.W.qn(c), list(args), dict(kw))
+                    else:
+                        self.W.interpret(obj, c, c.methods["__init__"], list(args), dict(kw))
+                    return None
+            if args or kw:
+                raise AnalysisError("object.__init__() takes no arguments")
+            return None
         if isinstance(f, ast.Attribute) and f.attr == "__init__":
             base = self.ev(f.value)
             if isinstance(base, ClassRef):
@@ -363,6 +402,231 @@ class PEv(Ev):
         return Ev.run_stmt(self, st)
 
 
+# ------------------------------------------- descriptors by concrete evaluation (fallback)
+
+class MLam(Lam):
+    """a length/presence callback that lives in the concrete evaluator (lambda, function, static or bound method)"""
+
+    def __init__(self, mach, fn):
+        from rules import c16
+        node = None
+        f = fn.func if isinstance(fn, c16.PBound) else fn
+        if isinstance(f, c16.PFunc):
+            node = f.node
+        if node is None:
+            node = ast.parse("lambda *a: None", mode="eval").body
+        Lam.__init__(self, node, None, {})
+        self.mach, self.fn = mach, fn
+
+    def call(self, args):
+        from rules import c16
+        m = self.mach
+        m.fuel, m.depth, m.exc_stack = 200000, 0, []
+        try:
+            return m.call(self.fn, list(args), {})
+        except c16.PyRaise as e:
+            raise Raised(e.cls_name)
+        except c16.MachUnknown as e:
+            raise Unknown(str(e))
+        except c16.MachTimeout:
+            raise Unknown("callback does not terminate")
+
+    def __repr__(self):
+        return "<callback %s>" % canon(self.node)[:60]
+
+
+class MWorld(World):
+    """The PDU definitions built by the concrete evaluator (rules.c16.Mach): trxd_proto.py and codec.py are evaluated as
+    they are, the resulting objects are read out (field classes through the codec MRO, name/len/parameters, the bit
+    layout the set computed, wrapped envelopes / sequence items) and the callbacks are classified by probing them
+    (constant length / all remaining octets / anything else is a callback).  Used when the constant folder cannot
+    follow the definitions' source; yields the same descriptors."""
+
+    def __init__(self, repo):
+        from rules import c16
+        World.__init__(self, repo)
+        self.lab = c16.Lab(repo)
+        self.m = self.lab.m
+        self.tp = self.m.module("trxd_proto")
+        self.objs = {}
+
+    def ci_of(self, cls):
+        from rules import c16
+        if not isinstance(cls, c16.PClass) or not cls.modname or not self.repo.has_mod(cls.modname):
+            raise AnalysisError("class %r is not defined in the toolkit" % (cls,))
+        parts = cls.qual.split(".")
+        ci = self.repo.mod(cls.modname).classes.get(parts[0])
+        for p_ in parts[1:]:
+            ci = ci.inner.get(p_) if ci is not None else None
+        if ci is None:
+            raise AnalysisError("class %s not found in %s.py" % (cls.qual, cls.modname))
+        return ci
+
+    def get(self, inst, name, default=_NO):
+        from rules import c16
+        self.m.fuel, self.m.depth = 200000, 0
+        try:
+            return self.m.getattr_(inst, name)
+        except c16.PyRaise:
+            if default is not _NO:
+                return default
+            raise AnalysisError("%r has no attribute %s" % (inst, name))
+
+    def probe(self, fn, args):
+        from rules import c16
+        self.m.fuel, self.m.depth, self.m.exc_stack = 200000, 0, []
+        try:
+            return ("ok", self.m.call(fn, list(args), {}))
+        except c16.PyRaise as e:
+            return ("raise", e.cls_name)
+        except c16.MachTimeout:
+            return ("timeout",)
+
+    def adopt(self, inst):
+        from rules import c16
+        if not isinstance(inst, c16.PInst):
+            raise AnalysisError("not an object of the definitions: %r" % (inst,))
+        o = self.objs.get(id(inst))
+        if o is None:
+            o = Obj(self.ci_of(inst.cls))
+            o.inst = inst
+            self.objs[id(inst)] = o
+            cl = self.get(inst, "check_len", None)
+            if cl is not None:
+                o.attrs["check_len"] = cl
+        return o
+
+    def codec_kinds_m(self, inst):
+        from rules import c16
+        return [c.qual for c in inst.cls.mro if isinstance(c, c16.PClass) and c.modname == "codec"]
+
+    def construct_pdu(self, cname):
+        from rules import c16
+        cls = self.tp
+        for part in cname.split("."):
+            cls = self.m.getattr_(cls, part)
+        r = self.probe(cls, [])
+        if r[0] != "ok":
+            raise AnalysisError("%s() %s" % (cname, "raises " + r[1] if r[0] == "raise" else "does not terminate"))
+        return self.adopt(r[1])
+
+    def classify(self, f, a):
+        n = a["len"]
+        gl = self.get(f, "get_len")
+        rs = [self.probe(gl, [{}, bytes(k)]) for k in (0, 7, 600)]
+        if all(r == ("ok", n) for r in rs) and n > 0:
+            a["get_len"] = ("default", "fixed")
+        elif [r for r in rs] == [("ok", 0), ("ok", 7), ("ok", 600)]:
+            a["get_len"] = ("default", "rest")
+        else:
+            a["get_len"] = MLam(self.m, gl)
+        gp = self.get(f, "get_pres")
+        rs = [self.probe(gp, [v]) for v in ({}, {"nope": 1, "x": 0})]
+        a["get_pres"] = ("default", True) if all(r == ("ok", True) for r in rs) else MLam(self.m, gp)
+        a["get_val"] = ("default", "vals[name]")
+
+    def describe(self, env_obj):
+        from rules import c16
+        struct_ = self.get(env_obj.inst, "STRUCT")
+        if not isinstance(struct_, tuple):
+            raise AnalysisError("%s.STRUCT is not a tuple" % env_obj.ci.name)
+        out, off = [], 0
+        for f in struct_:
+            o = self.adopt(f)
+            kinds = self.codec_kinds_m(f)
+            a = o.attrs
+            a["name"], a["len"] = self.get(f, "name"), self.get(f, "len")
+            p_ = self.get(f, "p", {})
+            a["p"] = dict(p_) if isinstance(p_, dict) else {}
+            if not isinstance(a["len"], int) or a["len"] < 0:
+                raise AnalysisError("field %r: length %r" % (a["name"], a["len"]))
+            self.classify(f, a)
+            e = {"off": off, "obj": o}
+            glen, gpres = cb_kind(a["get_len"]), cb_kind(a["get_pres"])
+            if "BitFieldSet" in kinds:
+                lay = []
+                for bf in self.get(f, "_fields"):
+                    bk = self.codec_kinds_m(bf)
+                    nm = self.get(bf, "name", None)
+                    spare = "BitField.Spare" in bk or nm is None
+                    lay.append(dict(name=None if spare else nm, bl=self.get(bf, "bl"), offset=self.get(bf, "offset"),
+                                    val=None if spare else self.get(bf, "val", None), spare=spare))
+                rem = 8 * a["len"]
+                for x in lay:      # the layout the evaluated set computed must be the contiguous MSB-first one its fields declare
+                    if x["offset"] != rem - x["bl"]:
+                        raise AnalysisError("%s: bit-field %r at offset %r, expected %d" % (o.ci.name, x["name"], x["offset"], rem - x["bl"]))
+                    rem -= x["bl"]
+                a["layout"] = lay
+                e.update(kind="bits", size=a["len"], fields=[[x["name"] if not x["spare"] else None, x["bl"]] for x in lay],
+                         fixed={x["name"]: x["val"] for x in lay if x["val"] is not None}, layout=lay)
+                used = sum(x["bl"] for x in lay)
+                if used != a["len"] * 8:
+                    e["unused_bits"] = a["len"] * 8 - used
+            elif "Uint" in kinds:
+                bo, sg = self.get(f, "BO"), self.get(f, "SIGN")
+                e.update(kind=int_kind(a["len"], bo, sg), size=a["len"], name=a["name"], bo=bo, sign=bool(sg))
+                mlt, ofs = a["p"].get("mult"), a["p"].get("offset")
+                e["neg"] = (mlt == -1 and ofs == 0)
+                if (mlt, ofs) not in ((1, 0), (-1, 0)):
+                    e["transform"] = (mlt, ofs)
+            elif "Spare" in kinds:
+                e.update(kind="spare", size=a["len"], name=a["name"])
+                if a["p"].get("filler") != b"\x00":
+                    e["filler"] = a["p"].get("filler")
+            elif "Sequence.F" in kinds:
+                seq = self.get(f, "s")
+                item = self.adopt(self.get(seq, "_item"))
+                a["inner"] = seq
+                e.update(kind="seq", name=a["name"], size=a["len"], item=item)
+            elif "Envelope.F" in kinds:
+                inner = self.adopt(self.get(f, "e"))
+                a["inner"] = inner
+                e.update(kind="env", name=a["name"], size=a["len"], item=inner)
+            elif "Buf" in kinds:
+                e.update(kind="buf", name=a["name"], size=a["len"])
+            else:
+                raise AnalysisError("field class %s has no layout model" % o.ci.name)
+            e["len"] = glen if e["kind"] in ("buf", "seq", "env") or glen != "fixed" else "fixed"
+            e["pres"] = "always" if gpres is True else gpres
+            out.append(e)
+            if off is not None and e["len"] == "fixed" and e["pres"] == "always":
+                off += e["size"]
+            else:
+                off = None
+        return out
+
+
+def build_evaluated(L, repo):
+    """the PDU objects and descriptors by concrete evaluation (see MWorld)"""
+    from rules import c16
+    try:
+        W = MWorld(repo)
+        out = {}
+        for pid, cls, inner in PDUS:
+            if inner is None:
+                obj = W.construct_pdu(cls)
+                out[pid] = (obj, W.describe(obj), cls)
+            else:
+                parent = out[pid[:-1]][1]
+                seqs = [e for e in parent if e["kind"] == "seq"]
+                ci = W.repo.mod("trxd_proto").classes.get(cls)
+                if ci is None or inner not in ci.inner:
+                    raise AnalysisError("anchor class trxd_proto.%s.%s vanished" % (cls, inner))
+                if len(seqs) == 1 and seqs[0]["item"].ci is ci.inner[inner]:
+                    obj = seqs[0]["item"]
+                else:
+                    obj = W.construct_pdu("%s.%s" % (cls, inner))
+                out[pid] = (obj, W.describe(obj), "%s.%s" % (cls, inner))
+            L.fn(FP, out[pid][2])
+        return W, out
+    except c16.MachUnknown as e:
+        raise AnalysisError("concrete evaluation of the PDU definitions: %s" % e)
+    except c16.PyRaise as e:
+        raise AnalysisError("concrete evaluation of the PDU definitions raises %s" % e.cls_name)
+    except c16.MachTimeout:
+        raise AnalysisError("concrete evaluation of the PDU definitions does not terminate")
+
+
 # ----------------------------------------------------------- descriptors
 
 def int_kind(size, bo, sign):
@@ -379,7 +643,7 @@ def cb_kind(v):
     return "?"
 
 
-def describe(W, env_obj):
+def describe_folded(W, env_obj):
     """layout descriptor of an Envelope model object: list of entries"""
     try:
         struct_ = W.obj_attr(env_obj, "STRUCT")
@@ -404,7 +668,7 @@ def describe(W, env_obj):
                 e["unused_bits"] = a["len"] * 8 - used
         elif "Uint" in kinds:
             bo, sg = W.class_attr(f.ci, "BO"), W.class_attr(f.ci, "SIGN")
-            e.update(kind=int_kind(a["len"], bo, sg), size=a["len"], name=a["name"])
+            e.update(kind=int_kind(a["len"], bo, sg), size=a["len"], name=a["name"], bo=bo, sign=bool(sg))
             m, o = a["p"].get("mult"), a["p"].get("offset")
             e["neg"] = (m == -1 and o == 0)
             if (m, o) not in ((1, 0), (-1, 0)):
@@ -667,7 +931,7 @@ PDUS = [("v0Rx", "PDUv0Rx", None), ("v0Tx", "PDUv0Tx", None), ("v1Rx", "PDUv1Rx"
         ("v2Rx", "PDUv2Rx", None), ("v2Tx", "PDUv2Tx", None), ("v2RxB", "PDUv2Rx", "BPDU"), ("v2TxB", "PDUv2Tx", "BPDU")]
 
 
-def build(L, repo):
+def build_folded(L, repo):
     if not repo.has_mod("trxd_proto"):
         raise AnalysisError("anchor module trxd_proto.py vanished")
     tmod = repo.mod("trxd_proto")
@@ -682,7 +946,7 @@ def build(L, repo):
                 obj = W.construct(ci, [], {})
             except (Unknown, Raised) as e:
                 raise AnalysisError("%s() does not fold: %s" % (cls, e))
-            out[pid] = (obj, describe(W, obj), cls)
+            out[pid] = (obj, W.describe(obj), cls)
         else:
             parent = out[pid[:-1]][1]
             seqs = [e for e in parent if e["kind"] == "seq"]
@@ -692,9 +956,26 @@ def build(L, repo):
                 obj = seqs[0]["item"]          # the very instance the Sequence was built with
             else:
                 obj = W.construct(ci.inner[inner], [], {})
-            out[pid] = (obj, describe(W, obj), "%s.%s" % (cls, inner))
+            out[pid] = (obj, W.describe(obj), "%s.%s" % (cls, inner))
         L.fn(FP, out[pid][2])
     return W, out
+
+
+def build(L, repo):
+    """PDU objects + layout descriptors: by constant folding of the definitions' source with the codec constructors
+    modelled by contract; where the folder cannot follow the source, by concrete evaluation of trxd_proto.py and
+    codec.py (MWorld).  Both yield the same descriptors; how the definitions are written does not enter."""
+    try:
+        if os.environ.get("VERIF_C17_FORCE_EVAL") == "1":       # self-test of the fallback path
+            raise AnalysisError("folding disabled by VERIF_C17_FORCE_EVAL")
+        return build_folded(L, repo)
+    except (AnalysisError, Unknown, Raised) as e1:
+        try:
+            W, out = build_evaluated(L, repo)
+        except AnalysisError as e2:
+            raise AnalysisError("%s; %s" % (e1, e2))
+        L.extra.setdefault("notes", []).append("PDU definitions: constant folding stopped (%s); descriptors obtained by concrete evaluation" % str(e1)[:200])
+        return W, out
 
 
 def r1_structure(L, spec, W, pdus):
@@ -726,30 +1007,56 @@ def r1_structure(L, spec, W, pdus):
     L.floor(R, "envelopes", n, 8)
 
 
-def burst_table(repo):
+def burst_table(repo, W=None):
+    """MTS.get_burst_len tabulated over all 16 codes of the 4-bit mod field.  The function is folded by the constant
+    evaluator (with the class-body scope of MTS, so that class-level tables and constants resolve); whatever that
+    evaluator cannot fold is evaluated by the concrete evaluator (rules.c16.Mach).  How the function computes the
+    value (decision chain, lookup table, arithmetic) does not enter."""
     tmod = repo.mod("trxd_proto")
     mts = tmod.classes.get("MTS")
-    if mts is None or "get_burst_len" not in mts.methods:
+    if mts is None:
         raise AnalysisError("anchor trxd_proto.MTS.get_burst_len vanished")
-    m = mts.methods["get_burst_len"]
-    ps = params(m)
-    static = any(isinstance(d, ast.Name) and d.id == "staticmethod" for d in m.decorator_list)
-    if not static or len(ps) != 1:
-        raise AnalysisError("MTS.get_burst_len is not a one-argument static method")
+    c0, m = repo.find_method(mts, "get_burst_len")
+    if m is None:
+        raise AnalysisError("anchor trxd_proto.MTS.get_burst_len vanished")
+    W = W or World(repo)
     tab = {}
+    mach = []
+
+    def by_machine(code):
+        from rules import c16
+        if not mach:
+            mm = c16.Mach(repo, fuel=200000)
+            mach.append((mm, mm.getattr_(mm.getattr_(mm.module("trxd_proto"), "MTS"), "get_burst_len")))
+        mm, f = mach[0]
+        mm.fuel, mm.depth = 200000, 0
+        try:
+            return mm.call(f, [code], {})
+        except c16.PyRaise as e:
+            return "raises %s" % e.cls_name
+        except c16.MachTimeout:
+            return "does not terminate"
     for code in range(16):
         try:
-            tab[code] = Ev(repo, tmod).call_func(m, tmod, [(ps[0], code)], self_cls=mts)
+            static = any(isinstance(d, ast.Name) and d.id == "staticmethod" for d in m.decorator_list)
+            ps = params(m)
+            if not static or len(ps) != 1:
+                raise Unknown("not a one-argument static method")
+            tab[code] = PEv(repo, c0.mod, W=W).call_func(m, c0.mod, [(ps[0], code)], self_cls=c0)
         except Raised as e:
             tab[code] = "raises %s" % e.cls
         except Unknown as e:
-            raise AnalysisError("MTS.get_burst_len does not fold for mod=%d: %s" % (code, e))
+            from rules import c16
+            try:
+                tab[code] = by_machine(code)
+            except c16.MachUnknown as e2:
+                raise AnalysisError("MTS.get_burst_len does not fold for mod=%d: %s / %s" % (code, e, e2))
     return mts, m, tab
 
 
 def r2_burst_len(L, repo, spec, W, pdus):
     R = "C17.R2"
-    mts_ci, m, tab = burst_table(repo)
+    mts_ci, m, tab = burst_table(repo, W)
     fn = "MTS.get_burst_len"
     L.fn(FP, fn)
     mods = spec["mts"]["modulations"]
@@ -854,7 +1161,7 @@ def r3_v0rx(L, repo, spec, W, pdus):
     try:
         t = X.PyLower(env={canon(ast.parse("len(%s)" % lam.node.args.args[1].arg, mode="eval").body): X.V("remaining")}).lower(lam.node.body)
         L.extra.setdefault("notes", []).append("PDUv0Rx soft-bits length callback normal form: %s" % X.show(t))
-    except (AnalysisError, IndexError):
+    except Exception:      # purely informational
         pass
 
 
@@ -979,6 +1286,301 @@ def r4_msg_codec(L, repo, spec, W, pdus):
                "mod_width": lay.get("mod", {}).get("bl"), "tsc_width": lay.get("tsc", {}).get("bl")}, line=mts_sets[0]["obj"].ci.node.lineno)
 
 
+# ------------------------------------------------- evaluated rules (semantic: code folded over witnesses)
+
+class _NullLedger:
+    """build() registers functions on a ledger; when C16 borrows the descriptors nothing must be registered"""
+
+    def __init__(self, repo):
+        self.repo = repo.root
+        self.extra = {}
+
+    def fn(self, *a):
+        pass
+
+    def unit(self, *a):
+        pass
+
+
+def apply_cb(W, lam, args):
+    from rules import c16
+    try:
+        return W.apply(lam, args)
+    except Raised as ex:
+        raise c16.RefErr(ex.cls)
+    except Unknown as ex:
+        raise AnalysisError("callback %s does not fold: %s" % (canon(lam.node)[:60], ex))
+
+
+def ref_env(W, desc, check_len=True, name="Envelope"):
+    """reference description (rules.c16.REnv: the documented block semantics) of a definition given by its layout
+    descriptor; the definition's own callbacks are folded by the constant evaluator"""
+    from rules import c16
+    fields = []
+    for e in desc:
+        a = e["obj"].attrs
+        cb = {}
+        for attr, key in (("get_len", "getlen"), ("get_pres", "pres"), ("get_val", "getval")):
+            lam = a.get(attr)
+            if isinstance(lam, Lam):
+                cb[key] = (lambda l: (lambda *args: apply_cb(W, l, list(args))))(lam)
+        k = e["kind"]
+        if k == "bits":
+            f = c16.RBits([(x["name"] if not x["spare"] else None, x["bl"], x["val"]) for x in e["layout"]], None, e["size"])
+            if cb:
+                raise AnalysisError("bit-field set with callbacks")
+        elif k == "spare":
+            f = c16.RSpare(a["name"], a["len"], a["p"].get("filler"), **cb)
+        elif k == "buf":
+            f = c16.RBuf(a["name"], a["len"], **cb)
+        elif k == "seq":
+            item = e["item"]
+            if not isinstance(item, Obj):
+                raise AnalysisError("sequence item is not an envelope")
+            f = c16.RSeqF(ref_env(W, W.describe(item), False, item.ci.name), a["name"], a["len"], **cb)
+        elif k == "env":
+            inner = e["item"]
+            if not isinstance(inner, Obj):
+                raise AnalysisError("nested envelope is not an envelope")
+            f = c16.REnvF(ref_env(W, W.describe(inner), inner.attrs.get("check_len", True), inner.ci.name), a["name"], a["len"], **cb)
+        else:
+            f = c16.RIntSpec(a["name"], a["len"], e["bo"], e["sign"], a["p"].get("offset", 0), a["p"].get("mult", 1), **cb)
+        fields.append(f)
+    return c16.REnv(fields, check_len, name)
+
+
+def definition_refs(lab):
+    """[(qualified class name, reference description, constructor thunk for the evaluated class)] of the TRXD PDU
+    envelopes - used by C16 (the toolkit's own compositions of the codec blocks) and by R6 below"""
+    repo = lab.repo
+    try:
+        W, pdus = build(_NullLedger(repo), repo)
+    except (Unknown, Raised) as e:
+        raise AnalysisError("PDU definitions do not fold: %s" % e)
+    tp = lab.m.module("trxd_proto")
+    out = []
+    for pid, (obj, desc, cname) in pdus.items():
+        try:
+            ref = ref_env(W, desc, True, cname)
+        except (Unknown, Raised) as e:
+            raise AnalysisError("%s: layout does not fold: %s" % (cname, e))
+        cls = tp
+        for part in cname.split("."):
+            cls = lab.m.getattr_(cls, part)
+        out.append((cname, ref, (lambda c: (lambda: lab.m.call(c, [], {})))(cls)))
+    return out
+
+
+def r6_value_level(L, repo):
+    """R6 (value level, evaluated).  Clause decided on witnesses: "each declarative TRXD PDU definition ... decodes what it
+    encodes ... a version-2 PDU with any number of batched sub-PDUs round-trips with every sub-PDU intact".  Every PDU
+    class of trxd_proto is instantiated and evaluated by the concrete evaluator (codec.py and trxd_proto.py as they
+    are) on value assignments generated from its own layout (0..8 batched sub-PDUs with differing BATCH flags, all
+    burst lengths the length callbacks yield, NOPE indications); outcomes are compared with the block semantics
+    applied to the layout R1 compares with the specification."""
+    from rules import c16
+    R = "C17.R6"
+    try:
+        lab = c16.Lab(repo)
+        defs = definition_refs(lab)
+    except (c16.MachUnknown, AnalysisError) as e:
+        L.extra.setdefault("notes", []).append("[C17.R6] PDU definitions cannot be evaluated value-level: %s" % e)
+        return None
+    except c16.PyRaise as e:
+        raise AnalysisError("evaluating codec.py / trxd_proto.py raises %s" % e.cls_name)
+    n = 0
+    fams = []
+    for cname, ref, make in defs:
+        fam = c16.Family(R, cname, "%s: to_bytes() yields the octets its layout declares, from_bytes(to_bytes(v)) returns v - every batched sub-PDU "
+                         "included - consuming exactly the datagram, and re-encoding reproduces the octets" % cname)
+        fams.append(fam)
+        try:
+            k = c16.eval_definition(lab, fam, ref, make, variants=12)
+            if k == 0:
+                fam.unknown = "no value assignment in the domain of the definition could be generated"
+        except c16.MachUnknown as ex:
+            fam.unknown = str(ex)
+        except c16.PyRaise as ex:
+            fam.fail("evaluating the definition raises %s outside any modelled outcome" % ex.cls_name)
+        except c16.MachTimeout:
+            fam.fail("evaluating the definition does not terminate (step budget exhausted)")
+    return commit_families(L, fams, "PDU definitions evaluated value-level", 8)
+
+
+def commit_families(L, fams, what, floor):
+    from rules import c16
+    n = 0
+    want = "no counterexample among the evaluated witnesses"
+    for f in fams:
+        if f.unknown is not None and f.bad is None:
+            continue
+        n += 1
+        L.ob(f.rule, FP, f.func, f.key, want, f.bad if f.bad is not None else want, f.bad is None)
+    V = c16.Verdict(fams)
+    if V.unknown:
+        # the evaluated rule adds to R1..R5 (which decide the structure by folding): where the concrete evaluator cannot
+        # follow the code this rule gives no verdict of its own and says so in the evidence
+        L.extra.setdefault("notes", []).append("[%s] %s: not evaluable: %s" % (fams[0].rule if fams else "C17", what, V.unknown_text()))
+    else:
+        L.floor(fams[0].rule if fams else "C17", what, n, floor)
+    return V
+
+
+def r4_evaluated(L, repo, spec, W, pdus):
+    """R4 (evaluated).  Clause: "every version-0/1 datagram produced by the message codec, including legacy-padded ones,
+    is accepted by the corresponding definition with identical field values".  Witness messages (boundary header
+    values, every modulation with every TSC set, GMSK and EDGE bursts, NOPE indications, legacy padding on/off) are
+    generated by TxMsg/RxMsg.gen_msg() under the concrete evaluator and handed to the evaluated PDU class; the
+    decoded values must be the message's fields.  How gen_msg assembles the octets does not enter."""
+    from rules import c16
+    import array as _array
+    R = "C17.R4"
+    try:
+        lab = c16.Lab(repo)
+        m = lab.m
+        dm = m.module("data_msg")
+        tp = m.module("trxd_proto")
+        Mod = m.getattr_(dm, "Modulation")
+    except c16.MachUnknown as e:
+        raise AnalysisError("data_msg.py / trxd_proto.py cannot be evaluated: %s" % e)
+    except c16.PyRaise as e:
+        raise AnalysisError("evaluating data_msg.py / trxd_proto.py raises %s" % e.cls_name)
+    L.unit(FD)
+    fams = []
+    burst_names = {}
+    for pid in ("v0Rx", "v0Tx", "v1Rx", "v1Tx"):
+        burst_names[pid] = [e["obj"].attrs["name"] for e in pdus[pid][1] if e["kind"] == "buf"]
+
+    def message(cls, attrs):
+        msg = m.call(m.getattr_(dm, cls), [], {})
+        for k, v in attrs.items():
+            m.setattr_(msg, k, v)
+        return msg
+
+    def one(fam, pid, cls, attrs, expect, legacy, what):
+        pdu = m.call(m.getattr_(tp, pdus[pid][2]), [], {})
+        # the domain is what the message codec itself accepts: a message its validate() rejects yields no datagram
+        v = lab.run(lambda: lab.meth(message(cls, attrs), "validate"))
+        if v[0] == "raise":
+            fam.skipped = getattr(fam, "skipped", 0) + 1
+            return
+        d = lab.run(lambda: bytes(lab.meth(message(cls, attrs), "gen_msg", legacy)))
+        if d[0] != "ok":
+            fam.fail("%s: validate() accepts the message but gen_msg() does not produce a datagram (%s)" % (what, c16.fmt_out(d)))
+            return
+        got = lab.e_dec(pdu, d[1])
+        if got[0] != "ok":
+            fam.fail("%s: datagram %s... (%d octets) is not accepted by the definition (%s)" % (what, d[1][:12].hex(), len(d[1]), c16.fmt_out(got)))
+            return
+        vals, n = got[1]
+        vals = {ALIAS.get(k, k): v for k, v in vals.items()}
+        diff = {k: (vals.get(k, "<absent>"), v) for k, v in expect.items() if (vals.get(k, "<absent>") != v)}
+        if n != len(d[1]):
+            diff["<octets consumed>"] = (n, len(d[1]))
+        if diff:
+            fam.fail("%s: datagram %s... decodes with other field values: %s" % (
+                what, d[1][:12].hex(), ", ".join("%s = %r (message: %r)" % (k, a, b) for k, (a, b) in sorted(diff.items()))[:300]))
+        else:
+            fam.ok()
+
+    hdrs = [(0, 0), (0x123456, 5), (2715647, 7), (1, 3)]      # fn < GSM hyperframe (2715648)
+    # ---- Tx ----
+    for ver in (0, 1):
+        pid = "v%dTx" % ver
+        fam = c16.Family(R, pdus[pid][2], "%s accepts every datagram TxMsg.gen_msg() produces for version %d with identical field values "
+                         "(ver, tn, fn, pwr, hard bits; GMSK and EDGE bursts)" % (pdus[pid][2], ver))
+        fams.append(fam)
+        try:
+            bn = burst_names[pid]
+            if len(bn) != 1:
+                raise AnalysisError("%s: expected one burst field" % pid)
+            for i, (fn, tn) in enumerate(hdrs):
+                for pwr in (0, 255, 37):
+                    bl = (148, 444)[(i + pwr) % 2]
+                    burst = bytearray(((x * 7 + i) >> 1) & 1 for x in range(bl))
+                    exp = {"ver": ver, "tn": tn, "fn": fn, "pwr": pwr, bn[0]: bytes(burst)}
+                    for legacy in ((False, True) if ver == 1 else (False,)):      # (a legacy-padded v0 Tx datagram is outside the reference table)
+                        one(fam, pid, "TxMsg", {"ver": ver, "fn": fn, "tn": tn, "pwr": pwr, "burst": burst}, exp, legacy,
+                            "TxMsg(ver=%d, fn=%d, tn=%d, pwr=%d, %d bits).gen_msg(legacy=%s)" % (ver, fn, tn, pwr, bl, legacy))
+        except c16.MachUnknown as ex:
+            fam.unknown = str(ex)
+        except c16.PyRaise as ex:
+            fam.fail("evaluation raises %s outside any modelled outcome" % ex.cls_name)
+        except c16.MachTimeout:
+            fam.fail("evaluation does not terminate (step budget exhausted)")
+    # ---- Rx ----
+    members = list(Mod.enum_members or [])
+    if len(members) < 2:
+        raise AnalysisError("data_msg.Modulation: members not found")
+    for ver in (0, 1):
+        pid = "v%dRx" % ver
+        fam = c16.Family(R, pdus[pid][2], "%s accepts every datagram RxMsg.gen_msg() produces for version %d with identical field values "
+                         "(ver, tn, fn, rssi, toa256%s, soft bits%s)" % (
+                             pdus[pid][2], ver, ", nope/mod/tsc, C/I; every modulation with every TSC set, NOPE indications" if ver else "",
+                             "; legacy padding on/off" if ver == 0 else "; the legacy flag adds nothing"))
+        fams.append(fam)
+        try:
+            bn = burst_names[pid]
+            cases = []
+            if ver == 0:
+                for i, (fn, tn) in enumerate(hdrs):
+                    for j, (rssi, toa) in enumerate(((-120, -32768), (-47, 32767), (-110, -3))):
+                        for legacy in (False, True):
+                            cases.append((fn, tn, rssi, toa, None, None, None, None, (148, 444)[(i + j) % 2], False, legacy))
+            else:
+                k = 0
+                for mem in members:
+                    coding = m.getattr_(mem, "coding")
+                    bl = m.getattr_(mem, "bl")
+                    gmsk = m.getattr_(mem, "_name_") == "ModGMSK"
+                    for ts in range(4 if gmsk else 2):
+                        fn, tn = hdrs[k % 4]
+                        rssi, toa = ((-120, -32768), (-47, 32767), (-110, -3))[k % 3]
+                        cases.append((fn, tn, rssi, toa, mem, ts, (0, 3, 7)[k % 3], (-1280, 16, 1280)[k % 3], bl, False, bool(k % 2)))
+                        k += 1
+                for k, (fn, tn) in enumerate(hdrs[:2]):
+                    cases.append((fn, tn, -60, 0, members[0], 0, 0, 0, None, True, bool(k)))
+            for fn, tn, rssi, toa, mem, ts, tsc, ci, bl, nope, legacy in cases:
+                attrs = {"ver": ver, "fn": fn, "tn": tn, "rssi": rssi, "toa256": toa}
+                exp = {"ver": ver, "tn": tn, "fn": fn, "rssi": rssi, "toa256": toa}
+                if bl is not None:
+                    sb = [((x * 37 + tn * 11 + fn) % 255) - 127 for x in range(bl)]
+                    attrs["burst"] = _array.array("b", sb)
+                    exp[bn[0]] = bytes(127 - x for x in sb)
+                if ver == 0:
+                    if len(bn) > 1:
+                        exp[bn[1]] = b"\x00\x00" if legacy else b""
+                else:
+                    attrs.update(ci=ci, nope_ind=nope)
+                    exp["ci"] = ci
+                    if nope:
+                        exp.update(nope=1)
+                    else:
+                        attrs.update(mod_type=mem, tsc_set=ts, tsc=tsc)
+                        exp.update(nope=0, mod=m.getattr_(mem, "coding") | ts, tsc=tsc)
+                what = "RxMsg(ver=%d, fn=%d, tn=%d, rssi=%d, toa256=%d%s%s).gen_msg(legacy=%s)" % (
+                    ver, fn, tn, rssi, toa, "" if mem is None or nope else ", %s, tsc_set=%d, tsc=%d, ci=%d" % (m.getattr_(mem, "_name_"), ts, tsc, ci),
+                    ", NOPE" if nope else ", %d soft bits" % bl, legacy)
+                one(fam, pid, "RxMsg", attrs, exp, legacy, what)
+                if nope:
+                    pdu = m.call(m.getattr_(tp, pdus[pid][2]), [], {})
+                    d = lab.run(lambda: bytes(lab.meth(message("RxMsg", attrs), "gen_msg", legacy)))
+                    if d[0] == "ok":
+                        got = lab.e_dec(pdu, d[1])
+                        if got[0] == "ok" and bn[0] in got[1][0]:
+                            fam.fail("%s: a NOPE indication decodes with a burst" % what)
+        except c16.MachUnknown as ex:
+            fam.unknown = str(ex)
+        except c16.PyRaise as ex:
+            fam.fail("evaluation raises %s outside any modelled outcome" % ex.cls_name)
+        except c16.MachTimeout:
+            fam.fail("evaluation does not terminate (step budget exhausted)")
+    for fam in fams:
+        if fam.bad is None and fam.unknown is None and fam.n < 6:
+            fam.unknown = "the message codec's validate() rejects the witness messages (%d of %d)" % (getattr(fam, "skipped", 0), getattr(fam, "skipped", 0) + fam.n)
+    return fams
+
+
 def r5_batching(L, repo, spec, W, pdus, tab):
     R = "C17.R5"
     n = 0
@@ -1054,6 +1656,7 @@ def build_all(L, repo):
 
 
 def run(L, tier):
+    from rules import c16
     repo = Repo(L.repo)
     L.unit(FP)
     L.unit(rel("codec"))
@@ -1064,6 +1667,29 @@ def run(L, tier):
         L.stage(r1_structure, L, spec, W, pdus)
         tab = L.stage(r2_burst_len, L, repo, spec, W, pdus)
         L.stage(r3_v0rx, L, repo, spec, W, pdus)
-        L.stage(r4_msg_codec, L, repo, spec, W, pdus)
+        # R4: decided by evaluating the message codec's datagrams against the evaluated definitions; the extraction of
+        # the writer layout from the statements of gen_msg() is a proof attempt for all field values that is reported
+        # only along with an evaluated counterexample
+        fams = L.stage(r4_evaluated, L, repo, spec, W, pdus)
+        if fams is STAGE_FAILED:
+            V = c16.Verdict(None, error=L.deficits.pop() if L.deficits else "R4 not evaluable")
+        else:
+            V = c16.Verdict(fams)
+            want = "no counterexample among the evaluated witnesses"
+            n = 0
+            for f in fams:
+                if f.unknown is None or f.bad is not None:
+                    n += 1
+                    L.ob(f.rule, FP, f.func, f.key, want, f.bad if f.bad is not None else want, f.bad is None)
+            if not V.unknown:
+                L.floor("C17.R4", "message codec layouts (evaluated)", n, 4)
+            else:
+                L.extra.setdefault("notes", []).append("[C17.R4] message codec not evaluable: %s" % V.unknown_text())
+        c16.symbolic(L, V, r4_msg_codec, repo, spec, W, pdus)
         L.stage(r5_batching, L, repo, spec, W, pdus, tab)
-    L.stage(r5_sub_pdu_lists, L, repo)
+    # R6 evaluates every PDU class on several datagrams one after the other (same object): it is also the semantic decision
+    # for "every decode yields its own sub-PDU list", of which the origin analysis below is the proof attempt for all inputs
+    V6 = L.stage(r6_value_level, L, repo)
+    if V6 is STAGE_FAILED or V6 is None:
+        V6 = c16.Verdict(None, error="PDU definitions not evaluable value-level")
+    c16.symbolic(L, V6, r5_sub_pdu_lists, repo)
